@@ -420,14 +420,47 @@ func c12LDAP(c *Ctx) {
 		}
 	}
 	okBuild := builder != nil && strings.Join(writes, "") == "dn:pw" && builder.Block() == bind.Blocks[0]
-	c.Check(okBuild, "ldap-bind", "credential string", p.Pos(bind.Pos()), "built as binddn + ':' + bindpw", "the compared string is not exactly binddn ':' bindpw: "+strings.Join(writes, ","))
+	// the other spelling: binddn + ":" + string(bindpw)
+	isConcat := func(v ssa.Value) bool {
+		o, ok := v.(*ssa.BinOp)
+		if !ok || o.Op != token.ADD {
+			return false
+		}
+		in, ok := o.X.(*ssa.BinOp)
+		if !ok || in.Op != token.ADD || in.X != ssa.Value(dn) {
+			return false
+		}
+		if sep, isS := ConstString(in.Y); !isS || sep != ":" {
+			return false
+		}
+		if o.Y == ssa.Value(pw) {
+			return true
+		}
+		cv, ok := o.Y.(*ssa.Convert)
+		return ok && cv.X == ssa.Value(pw)
+	}
+	nConcat := 0
+	for _, b := range bind.Blocks {
+		for _, in := range b.Instrs {
+			if v, ok := in.(ssa.Value); ok && isConcat(v) {
+				nConcat++
+			}
+		}
+	}
+	c.Check(okBuild || (builder == nil && nConcat > 0), "ldap-bind", "credential string", p.Pos(bind.Pos()), "built as binddn + ':' + bindpw", "the compared string is not exactly binddn ':' bindpw: "+strings.Join(writes, ","))
 	isCredString := func(v ssa.Value) bool {
+		if isConcat(v) {
+			return true
+		}
 		call, ok := v.(*ssa.Call)
-		return ok && MethodIs(call.Call.StaticCallee(), "strings", "Builder", "String") && call.Call.Args[0] == ssa.Value(builder)
+		return ok && builder != nil && MethodIs(call.Call.StaticCallee(), "strings", "Builder", "String") && call.Call.Args[0] == ssa.Value(builder)
 	}
 	isCredLen := func(v ssa.Value) bool {
+		if x, ok := isLenOf(v); ok && isCredString(x) {
+			return true
+		}
 		call, ok := v.(*ssa.Call)
-		return ok && MethodIs(call.Call.StaticCallee(), "strings", "Builder", "Len") && call.Call.Args[0] == ssa.Value(builder)
+		return ok && builder != nil && MethodIs(call.Call.StaticCallee(), "strings", "Builder", "Len") && call.Call.Args[0] == ssa.Value(builder)
 	}
 	loginStoreIn := func(b *ssa.BasicBlock) (ssa.Value, bool) {
 		var val ssa.Value
@@ -857,7 +890,17 @@ func c12FTP(c *Ctx) {
 					if !ok || !call.Call.IsInvoke() || call.Call.Method.Name() != "CheckPasswd" {
 						continue
 					}
-					if Render(call.Call.Args[0]) == "p1.reqUser" && Render(st.Val) == "p1.reqUser" && call.Call.Args[1] == ssa.Value(fn.Params[len(fn.Params)-1]) {
+					// the user whose password was checked is the user that becomes logged in: both are loads of the same
+					// (pending-user) field of this connection, and the password is this command's argument
+					sameField := false
+					if l1, ok1 := isLoad(call.Call.Args[0]); ok1 {
+						if l2, ok2 := isLoad(st.Val); ok2 {
+							f1, okF1 := l1.X.(*ssa.FieldAddr)
+							f2, okF2 := l2.X.(*ssa.FieldAddr)
+							sameField = okF1 && okF2 && f1.Field == f2.Field && f1.X == f2.X && f1.X == fa.X && f1.Field != fa.Field
+						}
+					}
+					if sameField && call.Call.Args[1] == ssa.Value(fn.Params[len(fn.Params)-1]) {
 						okG = true
 					}
 				}
